@@ -490,8 +490,10 @@ func (m *Master) enumerate(ui int, en *Enum) {
 	if chunk < 1 {
 		chunk = 1
 	}
-	if chunk > 20000 {
-		chunk = 20000
+	// small chunks, so that a time budget that runs out is honoured within
+	// seconds (a job in flight is never interrupted)
+	if chunk > 400 {
+		chunk = 400
 	}
 	var jobs []job
 	for s := 0; s < en.N; s += chunk {
